@@ -903,7 +903,22 @@ fn format_subexpression(
                 format_unary_op(op, output)?;
             } else {
                 format_unary_op(op, output)?;
+                let operand_start = output.len();
                 format_subexpression(inner, prec, OperatorSide::Right, output, context)?;
+
+                // Keep a sign apart from an operand that starts with the same character
+                // Otherwise -(-x) would read back as --x and +(+x) as ++x
+                let sign = match op {
+                    ast::UnaryOp::Plus => Some('+'),
+                    ast::UnaryOp::Minus => Some('-'),
+                    ast::UnaryOp::AddressOf => Some('&'),
+                    _ => None,
+                };
+                if let Some(sign) = sign
+                    && output[operand_start..].starts_with(sign)
+                {
+                    output.insert(operand_start, ' ');
+                }
             }
         }
         ast::Expression::BinaryOperation(op, left, right) => {
